@@ -122,7 +122,42 @@ def is_binary_ext(path, file_type):
     ext = ('.' + file_type) if file_type is not None else os.path.splitext(path)[-1]
     return ext in ('.mo', '.gmo'), ext in ('.po', '.pot', '.mo', '.gmo')
 
-def base_args(path, data, real, lang_opt=None, file_type=None, stat=True):
+def _table_oracle(oracle, chars):
+    """replace the `q` (no decoder in the driver) entries of a PO oracle by a prefix-free table over `chars` — only for files whose
+    text is known (generated here) to stay inside `chars`; → (oracle, all replaced?)"""
+    items, ok = [], True
+    for item in oracle.split(','):
+        try:
+            hn, compat, kind = item.split(':', 2)
+        except ValueError:
+            items.append(item)
+            continue
+        if kind != 'q':
+            items.append(item)
+            continue
+        name = bytes.fromhex(hn).decode('ascii')
+        try:
+            probe = bytes(range(0x20, 0x7f))
+            if compat != '1' or probe.decode(name) != probe.decode('ascii'):
+                raise ValueError
+            pairs = []
+            for ch in sorted(chars):
+                if ord(ch) < 128:
+                    continue
+                b = ch.encode(name)
+                if b.decode(name) != ch or b[0] < 128:
+                    raise ValueError
+                pairs.append((b, ch))
+            keys = [b for b, _ in pairs]
+            if any(a != b and b.startswith(a) for a in keys for b in keys) or not pairs:
+                raise ValueError
+            items.append(f'{hn}:{compat}:k' + ';'.join(f'{b.hex()}={ord(ch):x}' for b, ch in pairs))
+        except Exception:
+            items.append(item)
+            ok = False
+    return ','.join(items), ok
+
+def base_args(path, data, real, lang_opt=None, file_type=None, stat=True, known_chars=None):
     """everything of the `whole check` line that does not depend on ctx.language → (list of tokens, skip reason | None)"""
     binary, known = is_binary_ext(path, file_type)
     skip = None
@@ -134,6 +169,10 @@ def base_args(path, data, real, lang_opt=None, file_type=None, stat=True):
                 skip = 'mo-codec-family'
         else:
             po_or, sk = PO.oracle_for(data, 'ISO-8859-1', table_ok=False)
+            if sk in ('codec-family', 'codec-family-escape') and known_chars is not None:
+                po_or, ok = _table_oracle(po_or, known_chars)
+                if ok:
+                    sk = None
             if sk:
                 skip = 'po-' + sk
     es = real['snapshot'] or []
@@ -174,7 +213,9 @@ def compare(chk, name, cases, workdir):
     """cases: [(relative path, bytes, lang_opt, file_type)] → list of results
     dict(case=…, real=…, model=<line> | None, skip=<reason> | None, agree=bool)"""
     prepared = []
-    for rel, data, lang_opt, file_type in cases:
+    for case in cases:
+        rel, data, lang_opt, file_type = case[:4]
+        known_chars = case[5] if len(case) > 5 else None
         path = os.path.join(workdir, rel)
         os.makedirs(os.path.dirname(path), exist_ok=True)
         missing = data is None
@@ -190,7 +231,7 @@ def compare(chk, name, cases, workdir):
             prepared.append({'case': (rel, data, lang_opt, file_type), 'real': real, 'skip': 'cli-rejects-language', 'args': None})
             continue
         try:
-            args, skip, lines = base_args(path, data, real, lang_opt, file_type, stat=not missing)
+            args, skip, lines = base_args(path, data, real, lang_opt, file_type, stat=not missing, known_chars=known_chars)
         except BaseException as exc:
             if isinstance(exc, (KeyboardInterrupt, SystemExit)):
                 raise
@@ -265,7 +306,7 @@ def first_difference(p):
 
 # ----------------------------------------------------------------------------- cases
 
-LANG_OPTS = [None, None, None, None, 'de', 'pl', 'pl_PL', 'sr@latin', 'en_US.UTF-8', 'pt_BR', 'xx', 'zh_TW']
+LANG_OPTS = [None] * 7 + ['de', 'pl', 'pl_PL', 'sr@latin', 'en_US.UTF-8', 'pt_BR', 'zh_TW', 'de_AT', 'ja', 'ru', 'ca@valencia', 'xx']
 PATHS = ['x', 'de', 'pl', 'gizmo', 'pl/LC_MESSAGES/gizmo', 'de/LC_MESSAGES/de', 'po/pl_PL', 'xx/LC_MESSAGES/x', 'a b/c', 'pl/x']
 
 def gen_cases(rng, n, sources=('meta', 'catalog', 'hostile')):
@@ -325,7 +366,10 @@ def gen_cases(rng, n, sources=('meta', 'catalog', 'hostile')):
                 file_type = rng.choice(['txt', 'PO', 'po~', ''])
         if rng.random() < 0.02:
             data = None            # the path does not exist: os.stat fails
-        out.append((f'w{k}/{base}{ext}', data, rng.choice(LANG_OPTS), file_type, src))
+        known = None
+        if src == 'meta' and data is not None:
+            known = set(''.join(G.all_strings(cat)))
+        out.append((f'w{k}/{base}{ext}', data, rng.choice(LANG_OPTS), file_type, src, known))
     return out
 
 # ----------------------------------------------------------------------------- shrinking and the stream
@@ -400,8 +444,9 @@ class _Quiet:
         self.evaluations = 0
 
 EXCLUDED = {
-    'po-codec-family': "the file declares (or the retry needs) a charset the PO driver has no decoder for: only ASCII, ISO-8859-1, UTF-8 and single-byte "
-                       "charmaps are decoded by lean/I18n/Driver/Po.lean; multi-byte codecs (EUC-JP, GB18030, Shift_JIS, …) and iconv-only ones are skipped",
+    'po-codec-family': "the file declares (or the retry needs) a charset the PO driver has no decoder for: ASCII, ISO-8859-1, UTF-8 and single-byte charmaps are decoded by "
+                       "lean/I18n/Driver/Po.lean; a stateless multi-byte codec (EUC-JP, GB18030, Shift_JIS, …) is given as a table only for files generated here, whose "
+                       "text is known; for other files, and for iconv-only / stateful codecs, the file is skipped",
     'po-codec-family-escape': 'the same, for escaped non-ASCII bytes that polib_unescape decodes in the declared charset',
     'po-lookup-raises': 'codecs.lookup itself raises for a declared name (embedded NUL …): outside the Po.Env oracle',
     'mo-codec-family': 'the same for lean/I18n/Driver/Mo.lean (ASCII, ISO-8859-1, UTF-8, single-byte charmaps)',
@@ -409,11 +454,15 @@ EXCLUDED = {
     'recursion-limit': "the real run ended in RecursionError: the interpreter's stack budget is not modelled (open finding of C01, crash:RecursionError:lib/intexpr.py)",
 }
 
+_RUN = [0]
+
 def stream(chk, work_root, rng, n, name='whole-files', sources=('meta', 'catalog', 'hostile'), max_report=3):
     """the `whole-files` stream.  → list of disagreements, each shrunk and attributed: dict(kind='whole-file', file_hex, path, options,
     first_difference{index, real, model, stage_of_real_call}, real, model, replay).  Exported for C01 / C03: `whole_common.stream(chk, dir, rng, n)`."""
     cases = gen_cases(rng, n, sources)
-    res = compare(chk, name, [c[:4] for c in cases], work_root)
+    _RUN[0] += 1
+    cases = [(f'run{_RUN[0]}/' + c[0],) + c[1:] for c in cases]
+    res = compare(chk, name, [c[:4] + (None, c[5]) for c in cases], work_root)
     st = chk.coverage['streams'][name]
     # the one documented gap between model and interpreter
     for p in res:
